@@ -12,7 +12,7 @@ _STATE = {}
 
 
 def _job(args):
-    ci, ii, timeout_ms, prefix = args
+    ci, ii, timeout_ms, prefix, ob_filter = args
     interp, contracts = _STATE["interp"], _STATE["contracts"]
     c = contracts[ci]
     inst = c.instances[ii]
@@ -30,6 +30,9 @@ def _job(args):
     out["assumptions"] = sorted(rep.assumptions)
     out["gen_s"] = rep.gen_time
     t1 = time.time()
+    if ob_filter:
+        import re
+        rep.obligations = [o for o in rep.obligations if re.search(ob_filter, o.name)]
     res = solve.discharge(rep.obligations, timeout_ms=timeout_ms, procs=1, quick_ms=min(timeout_ms, 4000))
     out["solve_s"] = time.time() - t1
     for r in res:
@@ -50,7 +53,7 @@ def _solve_serial(obs, timeout_ms):
     return solve.discharge(obs, timeout_ms=timeout_ms, procs=1)
 
 
-def run_contracts(interp, contracts, select, timeout_ms=10000, procs=None, prefix=""):
+def run_contracts(interp, contracts, select, timeout_ms=10000, procs=None, prefix="", ob_filter=None):
     """select: predicate on Contract.  Returns list of job outputs."""
     _STATE["interp"], _STATE["contracts"] = interp, contracts
     jobs = []
@@ -58,7 +61,7 @@ def run_contracts(interp, contracts, select, timeout_ms=10000, procs=None, prefi
         if not select(c):
             continue
         for ii in range(len(c.instances)):
-            jobs.append((ci, ii, timeout_ms, prefix))
+            jobs.append((ci, ii, timeout_ms, prefix, ob_filter))
     procs = procs or min(16, os.cpu_count() or 4)
     if not jobs:
         return []
